@@ -14,7 +14,7 @@ import (
 func init() {
 	register(&PropRules{
 		ID:      "C14",
-		Explain: "Written records follow the schema and the configured parameters — structural part: (C14.1) the single line written first is Sprintf(\"%s:%d:%d:%s\\n\", hasher.GetFormatID(), time.Now().Unix(), store.Default, hasher.Generate(password)) with hasher = Params[Default], and the reader splits on the same separator into the same positions; each hasher's string is Sprintf(\"%s:%s\", b64(salt), b64(digest)) in that order, matching the decoders; the algorithm identifiers are the schema's; (C14.2) salts: a fresh make([]byte,16) per argon2id Generate filled by crypto/rand.Read (error and length checked), used as the KDF salt and encoded as the first field; scryptauth.Gen likewise with 32 bytes; sizes equal the schema table (128/256 bit); (C14.3) KDF operands: IDKey(pw, salt, Time, Memory, Threads, Length) — each a direct load of the same-named parameter field in Generate and Check alike; YAML tags time/memory/threads/length, hmackey/cost/r/p, id/scryptauth/argon2id, basedir/default/params; scryptauth.New(Cost, StdEncoding(hmackey)) with the 32-byte length enforced, r/p applied only when > 0; in the dependency Hash = HMAC-SHA256(key=HmacKey, msg=scrypt.Key(pw, salt, 1<<PwCost, R, P, 32)); (C14.4) URL-safe base64 at all record sites (= C02.5); (C14.5) secrets stay out of the directory: everything written to a file depends on the password only through the KDF call and never on the HMAC key.",
+		Explain: "Written records follow the schema and the configured parameters — structural part: (C14.1) the single line written first is Sprintf(\"%s:%d:%d:%s\\n\", hasher.GetFormatID(), time.Now().Unix(), store.Default, hasher.Generate(password)) with hasher = Params[Default], and the reader splits on the same separator into the same positions; each hasher's string is Sprintf(\"%s:%s\", b64(salt), b64(digest)) in that order, matching the decoders; the algorithm identifiers are the schema's; (C14.2) salts: a fresh make([]byte,16) per argon2id Generate filled by crypto/rand.Read (error and length checked), used as the KDF salt and encoded as the first field; scryptauth.Gen likewise with 32 bytes; sizes equal the schema table (128/256 bit); (C14.3) KDF operands: IDKey(pw, salt, Time, Memory, Threads, Length) — each a direct load of the same-named parameter field in Generate and Check alike; YAML tags time/memory/threads/length, hmackey/cost/r/p, id/scryptauth/argon2id, basedir/default/params; scryptauth.New(Cost, StdEncoding(hmackey)) with the 32-byte length enforced, r/p applied only when > 0; in the dependency Hash = HMAC-SHA256(key=HmacKey, msg=scrypt.Key(pw, salt, 1<<PwCost, R, P, 32)); (C14.4) URL-safe base64 at all record sites (= C02.5); (C14.5) secrets stay out of the directory: everything written to a file depends on the password only through the KDF call and never on the HMAC key. Round 3: nothing in NewScryptAuthHasher writes the decoded HMAC key buffer, which scryptauth.New retains (read from the dependency).",
 		Undec:   []string{"digest value equality with an independent implementation (x/crypto is trusted)", "salt uniqueness as a probabilistic statement", "the current-time field's value"},
 		Run:     runC14,
 		Floors:  map[string]int{"C14.1": 4, "C14.2": 2, "C14.3": 6, "C14.4": 5, "C14.5": 3},
